@@ -105,6 +105,24 @@ class Monitor:
                 mon.dirty.add(K(self))
         Link.can_transmit_frame, Link.transmit_frame, Link.pre_timestep, Link.endpoint_down = can, tx, pre, down
 
+        from primaite.simulator.network.container import Network
+        o_npre = Network.pre_timestep
+
+        def npre(net, timestep):
+            o_npre(net, timestep)
+            # loads start every tick at zero: every link of the network (up or down) and every wireless channel, read here
+            for link in net.links.values():
+                mon.ck.evaluations += 1
+                if link.current_load != 0.0:
+                    mon.ck.violation("load-not-zero-at-tick-start", "link %s (is_up=%s) starts the tick with load %r" % (link, link.is_up, link.current_load),
+                                     dict(mon.context, link=str(link), is_up=bool(link.is_up), load=link.current_load))
+            for fr, load in net.airspace.bandwidth_load.items():
+                mon.ck.evaluations += 1
+                if load != 0.0:
+                    mon.ck.violation("load-not-zero-at-tick-start", "wireless channel %s starts the tick with load %r" % (fr, load),
+                                     dict(mon.context, channel=str(fr), load=load))
+        Network.pre_timestep = npre
+
         a_can, a_tx = AirSpace.can_transmit_frame, AirSpace.transmit
 
         def acan(self, frame, sender_network_interface):
@@ -295,7 +313,6 @@ def wireless(ck, mon, coq_in):
                 f.data_rate_bps = rng.choice([0.5, 1.0, 1.5, 2.0, 3.0, 1000.0]) * 0.0052 * 1024 * 1024
             mon.note(scenario="wireless_wan", tick=t)
             game.pre_timestep()
-            air.reset_bandwidth_load()
             for _ in range(rng.randint(1, 3)):
                 rng.choice(hosts).ping(rng.choice(ips), pings=rng.choice([1, 2]))
             game.advance_timestep()
